@@ -17,8 +17,10 @@
    The little compaction semantics needed here is defined locally ([compact]): the
    live record of every key, in ascending key order, timestamps preserved
    (copyDataBasedOnIndexFile: ReadData keeps AppendAtNs, Append writes it back).
-   Volumes have no TTL, payloads are non-empty, AppendAtNs values are distinct and
-   increasing (the model's clock). *)
+   Volumes have no TTL, payloads are non-empty.  AppendAtNs (time.Now().UnixNano() at
+   the moment of the append, volume_write.go doWriteRequest/doDeleteRequest, stored
+   with no monotonic guard) is an INPUT of every Write/Delete operation: equal and
+   backward clock readings are part of the histories. *)
 From Coq Require Import List NArith Bool Arith.
 Import ListNotations.
 Local Open Scope N_scope.
@@ -27,13 +29,16 @@ Record rec := {
   r_key : N;
   r_ts : N;          (* AppendAtNs *)
   r_live : bool;     (* false: the Size = 0 record a delete appends *)
-  r_val : N; r_len : N   (* payload identity: generator tag and length *)
+  r_val : N; r_len : N;  (* payload identity: generator tag and data length *)
+  r_meta : N             (* bytes of optional needle fields after the data (name, mime,
+                            last-modified, pairs, each with its length prefix); their
+                            content is a function of the tag *)
 }.
 
 (* GetActualSize, Version3: header 16 + Size + checksum 4 + timestamp 8 + padding 1..8;
-   Size = 4 + len + 1 for a needle that only has data, 0 for a tombstone *)
+   Size = 4 + len + 1 (+ optional fields) for a needle with data, 0 for a tombstone *)
 Definition disk_size (r : rec) : N :=
-  let size := if r_live r then r_len r + 5 else 0 in
+  let size := if r_live r then r_len r + 5 + r_meta r else 0 in
   let raw := 16 + size + 4 + 8 in
   raw + (8 - raw mod 8).
 
@@ -70,23 +75,25 @@ Definition read (v : vol) (k : N) : option (N * N) :=
 
 (* ---------- source side ---------- *)
 
-(* doWriteRequest: isFileUnchanged (same cookie, same bytes) => nothing is appended *)
-Definition src_write (v : vol) (clock k val len : N) : vol * N :=
+(* doWriteRequest: isFileUnchanged (same cookie, same checksum, same data bytes; the
+   optional fields are NOT compared) => nothing is appended.  [ts] is what
+   time.Now().UnixNano() returns. *)
+Definition src_write (v : vol) (k val len meta ts : N) : vol :=
   let unchanged :=
     match live_lookup (recs v) k with
     | Some r => (r_val r =? val) && (r_len r =? len)
     | None => false
     end in
-  if unchanged then (v, clock)
-  else ({| recs := recs v ++ [{| r_key := k; r_ts := clock + 1; r_live := true; r_val := val; r_len := len |}];
-           rev := rev v |}, clock + 1).
+  if unchanged then v
+  else {| recs := recs v ++ [{| r_key := k; r_ts := ts; r_live := true; r_val := val; r_len := len; r_meta := meta |}];
+          rev := rev v |}.
 
 (* doDeleteRequest: only a live entry gets a tombstone record *)
-Definition src_delete (v : vol) (clock k : N) : vol * N :=
+Definition src_delete (v : vol) (k ts : N) : vol :=
   match live_lookup (recs v) k with
-  | Some _ => ({| recs := recs v ++ [{| r_key := k; r_ts := clock + 1; r_live := false; r_val := 0; r_len := 0 |}];
-                  rev := rev v |}, clock + 1)
-  | None => (v, clock)
+  | Some _ => {| recs := recs v ++ [{| r_key := k; r_ts := ts; r_live := false; r_val := 0; r_len := 0; r_meta := 0 |}];
+                 rev := rev v |}
+  | None => v
   end.
 
 (* sorted, duplicate-free key list (MemDb.AscendingVisit) *)
@@ -149,49 +156,135 @@ Definition backup_run (src bk : vol) : vol :=
 
 (* ---------- histories ---------- *)
 Inductive op :=
-| Write (k val len : N)
-| Delete (k : N)
+| Write (k val len meta ts : N)
+| Delete (k ts : N)
 | Compact
 | Backup.
 
-Record state := { src : vol; clock : N; bk : vol }.
+Record state := { src : vol; bk : vol }.
 
-Definition init : state := {| src := empty_vol; clock := 0; bk := empty_vol |}.
+Definition init : state := {| src := empty_vol; bk := empty_vol |}.
 
 Definition step (st : state) (o : op) : state :=
   match o with
-  | Write k val len =>
-      let '(v, c) := src_write (src st) (clock st) k val len in {| src := v; clock := c; bk := bk st |}
-  | Delete k =>
-      let '(v, c) := src_delete (src st) (clock st) k in {| src := v; clock := c; bk := bk st |}
-  | Compact => {| src := compact_vol (src st); clock := clock st; bk := bk st |}
-  | Backup => {| src := src st; clock := clock st; bk := backup_run (src st) (bk st) |}
+  | Write k val len meta ts => {| src := src_write (src st) k val len meta ts; bk := bk st |}
+  | Delete k ts => {| src := src_delete (src st) k ts; bk := bk st |}
+  | Compact => {| src := compact_vol (src st); bk := bk st |}
+  | Backup => {| src := src st; bk := backup_run (src st) (bk st) |}
   end.
 
 Definition exec (st : state) (h : list op) : state := fold_left step h st.
 
-(* payloads are non-empty (an empty blob is the subject of C01's finding 0) *)
-Definition op_ok (o : op) : bool := match o with Write _ _ len => 0 <? len | _ => true end.
+(* payloads are non-empty (an empty blob is the subject of C01's finding 0); the clock
+   never reads 0 (0 is findLastAppendAtNs's answer for an empty index) *)
+Definition op_ok (o : op) : bool :=
+  match o with
+  | Write _ _ len _ ts => (0 <? len) && (0 <? ts)
+  | Delete _ ts => 0 <? ts
+  | _ => true
+  end.
 Definition hist_ok (h : list op) : bool := forallb op_ok h.
+Definition op_ts_pos (o : op) : bool :=
+  match o with Write _ _ _ _ ts => 0 <? ts | Delete _ ts => 0 <? ts | _ => true end.
+Definition ts_positive (h : list op) : bool := forallb op_ts_pos h.
 
-(* the decidable hypothesis of the partial theorem: no source compaction happens
-   while the source holds a write or delete the backup has not pulled yet.
-   [dirty] = a Write/Delete was issued since the last backup run. *)
+(* ---------- the decidable hypotheses of the partial theorem (state level, per step) ----------
+
+   [maxts bk]: the newest AppendAtNs the backup holds.  [split_newer M l] = (P, A) with
+   l = P ++ A and A the longest suffix of l whose records are all newer than M: the
+   part of the source the next run is certain to copy (c37_search_not_late).
+   [reflects st]: every key that has no record in A is served by the backup exactly
+   as by P.  It holds initially, is re-established by every backup run and is kept
+   by every append whose AppendAtNs is newer than [maxts bk] (proved).  The two ways
+   the code can break it are the two findings:
+     0  a source compaction (Compact2 rewrites the index in key order with the old
+        timestamps and drops tombstones) moves or drops a record of A;
+     1  an append whose clock reading is not newer than [maxts bk] (equal timestamps,
+        a clock that stepped back).
+   The trigger fires at such a step only when [reflects] is really lost by it. *)
+Definition maxts (l : list rec) : N := fold_right (fun r a => N.max (r_ts r) a) 0 l.
+
+Fixpoint split_newer (M : N) (l : list rec) : list rec * list rec :=
+  match l with
+  | [] => ([], [])
+  | r :: l' =>
+      let '(P, A) := split_newer M l' in
+      match P with
+      | [] => if M <? r_ts r then ([], r :: A) else ([r], A)
+      | _ => (r :: P, A)
+      end
+  end.
+
+Definition rec_eqb (a b : rec) : bool :=
+  (r_key a =? r_key b) && (r_ts a =? r_ts b) && Bool.eqb (r_live a) (r_live b)
+  && (r_val a =? r_val b) && (r_len a =? r_len b) && (r_meta a =? r_meta b).
+
+Definition orec_eqb (a b : option rec) : bool :=
+  match a, b with
+  | Some x, Some y => rec_eqb x y
+  | None, None => true
+  | _, _ => false
+  end.
+
+Definition reflects (st : state) : bool :=
+  let '(P, A) := split_newer (maxts (recs (bk st))) (recs (src st)) in
+  forallb (fun k => match latest A k with
+                    | Some _ => true
+                    | None => orec_eqb (live_lookup (recs (bk st)) k) (live_lookup P k)
+                    end)
+          (map r_key (recs (src st)) ++ map r_key (recs (bk st))).
+
+Definition appended (st st' : state) : bool :=
+  negb (Nat.eqb (length (recs (src st'))) (length (recs (src st)))).
+
+(* Some 0 / Some 1: the step [o] from [st] is an instance of finding 0 / 1 *)
+Definition step_trigger (st : state) (o : op) : option N :=
+  let st' := step st o in
+  match o with
+  | Compact => if reflects st' then None else Some 0
+  | Write _ _ _ _ ts | Delete _ ts =>
+      if appended st st' && (ts <=? maxts (recs (bk st))) && negb (reflects st') then Some 1 else None
+  | Backup => None
+  end.
+
+(* the first step of the history that is an instance of a finding *)
+Fixpoint trigger_from (st : state) (h : list op) : option N :=
+  match h with
+  | [] => None
+  | o :: h' =>
+      match step_trigger st o with
+      | Some k => Some k
+      | None => trigger_from (step st o) h'
+      end
+  end.
+Definition trigger (h : list op) : option N := trigger_from init h.
+
+(* a coarser, history-level sufficient condition (second partial theorem): no source
+   compaction while a write/delete issued since the last backup run is unpulled ... *)
 Fixpoint pulled_from (dirty : bool) (h : list op) : bool :=
   match h with
   | [] => true
-  | Write _ _ _ :: h' => pulled_from true h'
-  | Delete _ :: h' => pulled_from true h'
+  | Write _ _ _ _ _ :: h' => pulled_from true h'
+  | Delete _ _ :: h' => pulled_from true h'
   | Compact :: h' => negb dirty && pulled_from dirty h'
   | Backup :: h' => pulled_from false h'
   end.
 Definition pulled_before_each_compaction (h : list op) : bool := pulled_from false h.
-(* trigger of finding 0 *)
-Definition trig_compacted_before_pull (h : list op) : bool := negb (pulled_before_each_compaction h).
+
+(* ... and strictly increasing clock readings *)
+Fixpoint ts_increasing_from (c : N) (h : list op) : bool :=
+  match h with
+  | [] => true
+  | Write _ _ _ _ ts :: h' => (c <? ts) && ts_increasing_from ts h'
+  | Delete _ ts :: h' => (c <? ts) && ts_increasing_from ts h'
+  | _ :: h' => ts_increasing_from c h'
+  end.
+Definition ts_increasing (h : list op) : bool := ts_increasing_from 0 h.
 
 (* ---------- observables of the correspondence check ---------- *)
 Record obs := {
   o_sdat : N; o_bdat : N; o_srev : N; o_brev : N;
+  o_sidx : N; o_bidx : N;   (* .idx entries (file size / NeedleMapEntrySize): one per .dat record *)
   o_sreads : list (option (N * N)); o_breads : list (option (N * N))
 }.
 
@@ -202,6 +295,7 @@ Definition observe (nkeys : N) (st : state) : obs :=
   let ks := key_range (N.to_nat nkeys) in
   {| o_sdat := dat_size (src st); o_bdat := dat_size (bk st);
      o_srev := rev (src st); o_brev := rev (bk st);
+     o_sidx := N.of_nat (length (recs (src st))); o_bidx := N.of_nat (length (recs (bk st)));
      o_sreads := map (read (src st)) ks; o_breads := map (read (bk st)) ks |}.
 
 (* one observation after every backup run *)
